@@ -16,7 +16,7 @@ from hypothesis import strategies as st
 from pbt import strategies as S
 from pbt.common import Stats, Sub, Violation
 from pbt.model import Model, uri_prefixes_of
-from pbt.sut import Converter, mk_records
+from pbt.sut import Converter, mk_record, mk_records
 
 PROPERTY_ID = "C18"
 RULE = (
@@ -158,7 +158,10 @@ def service_cases(draw, tier="quick", http=False):
     preds = draw(st.sampled_from([None, None, [OWL_SAMEAS], [SKOS_EXACT], [OWL_SAMEAS, SKOS_EXACT]]))
     configured = preds or [OWL_SAMEAS]
     qpred = draw(st.sampled_from(configured + configured + [OTHER_PRED]))
-    case = {"records": recs, "uri": uri, "predicates": preds, "query_predicate": qpred, "bound": draw(st.sampled_from(["s", "o"]))}
+    case = {"records": recs, "uri": uri, "predicates": preds, "query_predicate": qpred, "bound": draw(st.sampled_from(["s", "o"])),
+            # records registered only after the graph / apps were built and had answered once (the service holds its
+            # converter by reference and must answer for the converter as it is at query time)
+            "late": min(draw(st.sampled_from([0, 0, 1, 2])), len(recs))}
     if http:
         case["accept"] = draw(accept_headers())["header"]
     return case
@@ -178,8 +181,17 @@ def _queries(uri, pred, bound, allow_prefixed):
     return free, shapes
 
 
-def _expected(case):
-    model = Model(case["records"])
+def _extend(conv, records):
+    for r in records:
+        conv.add_record(mk_record({"prefix": r["prefix"], "uri_prefix": r["uri_prefix"]}))
+        for syn in r["prefix_synonyms"]:
+            conv.add_prefix(syn, r["uri_prefix"], merge=True)
+        for syn in r["uri_prefix_synonyms"]:
+            conv.add_record(mk_record({"prefix": r["prefix"], "uri_prefix": syn}), merge=True)
+
+
+def _expected(case, records=None):
+    model = Model(case["records"] if records is None else records)
     configured = case["predicates"] or [OWL_SAMEAS]
     lm = model.longest_match(case["uri"])
     if lm is None or case["query_predicate"] not in configured:
@@ -213,19 +225,27 @@ def check_graph(case, stats: Stats) -> None:
 
     if any(ch in INVALID_IRI_CHARS for ch in case["uri"]):
         return
-    conv = Converter(mk_records(case["records"]))
+    recs = case["records"]
+    late = case.get("late", 0)
+    early = recs[: len(recs) - late] if late else recs
+    conv = Converter(mk_records(early))
     graph = MappingServiceGraph(converter=conv, predicates=case["predicates"])
     processor = MappingServiceSPARQLProcessor(graph)
-    want, lm = _expected(case)
     free, shapes = _queries(case["uri"], case["query_predicate"], case["bound"], True)
-    for name, q in shapes.items():
-        stats.ev()
-        with warnings.catch_warnings():
-            warnings.simplefilter("ignore")
-            rows = list(graph.query(q, processor=processor))
-        got = {str(getattr(row, free)) for row in rows}
-        if got != want:
-            raise Violation(f"query shape {name} binding ?{case['bound']} to <{case['uri']}> over <{case['query_predicate']}> returned ?{free} = {sorted(got)!r}, expected {sorted(want)!r}\n{q}")
+    phases = [("before the converter was extended", early), ("after the converter was extended", recs)] if late else [("", recs)]
+    for phase, current in phases:
+        if phase.startswith("after"):
+            _extend(conv, recs[len(recs) - late:])
+            stats.cls("converter-extended-after-graph-built")
+        want, lm = _expected(case, current)
+        for name, q in shapes.items():
+            stats.ev()
+            with warnings.catch_warnings():
+                warnings.simplefilter("ignore")
+                rows = list(graph.query(q, processor=processor))
+            got = {str(getattr(row, free)) for row in rows}
+            if got != want:
+                raise Violation(f"{phase} query shape {name} binding ?{case['bound']} to <{case['uri']}> over <{case['query_predicate']}> returned ?{free} = {sorted(got)!r}, expected {sorted(want)!r}\n{q}")
     _classify(case, lm, stats)
 
 
@@ -258,10 +278,12 @@ def check_http(case, stats: Stats) -> None:
     from curies.mapping_service.api import get_fastapi_router, get_flask_mapping_blueprint
     from starlette.testclient import TestClient
 
-    conv = Converter(mk_records(case["records"]))
+    recs = case["records"]
+    late = case.get("late", 0)
+    early = recs[: len(recs) - late] if late else recs
+    conv = Converter(mk_records(early))
     if case["predicates"] not in (None, [OWL_SAMEAS]):
         case = dict(case, predicates=None, query_predicate=case["query_predicate"] if case["query_predicate"] != SKOS_EXACT else OTHER_PRED)
-    want, lm = _expected(case)
     free, shapes = _queries(case["uri"], case["query_predicate"], case["bound"], True)
     accept = case.get("accept")
     want_ct = negotiation_oracle(accept)
@@ -269,28 +291,34 @@ def check_http(case, stats: Stats) -> None:
         warnings.simplefilter("ignore")
         flask_client = get_flask_mapping_app(conv).test_client()
         fast_client = TestClient(get_fastapi_mapping_app(conv))
-        for name in ("values-inside", "values-after"):
-            q = shapes[name]
-            headers = {} if accept is None else {"Accept": accept}
-            calls = {
-                "flask-get": lambda: flask_client.get("/sparql", query_string={"query": q}, headers=headers),
-                "flask-post": lambda: flask_client.post("/sparql", data={"query": q}, headers=headers),
-            }
-            if accept is not None:  # FastAPI declares the Accept header as required
-                calls["fastapi-get"] = lambda: fast_client.get("/sparql", params={"query": q}, headers=headers)
-            for how, fn in calls.items():
-                stats.ev()
-                resp = fn()
-                status = resp.status_code
-                if status != 200:
-                    raise Violation(f"{how} {name} Accept={accept!r}: HTTP {status}")
-                ct = (resp.headers.get("content-type") or "").split(";")[0].strip()
-                if ct not in want_ct:
-                    raise Violation(f"{how} Accept={accept!r}: Content-Type {ct!r}, negotiation oracle allows {sorted(want_ct)!r}")
-                body = resp.get_data(as_text=True) if hasattr(resp, "get_data") else resp.text
-                got = _parse_bindings(ct, body, free)
-                if got != want:
-                    raise Violation(f"{how} {name} Accept={accept!r} ({ct}): ?{free} = {sorted(got)!r}, expected {sorted(want)!r}")
+        phases = [("before the converter was extended", early), ("after the converter was extended", recs)] if late else [("", recs)]
+        for phase, current in phases:
+            if phase.startswith("after"):
+                _extend(conv, recs[len(recs) - late:])
+                stats.cls("converter-extended-after-app-built")
+            want, lm = _expected(case, current)
+            for name in ("values-inside", "values-after"):
+                q = shapes[name]
+                headers = {} if accept is None else {"Accept": accept}
+                calls = {
+                    "flask-get": lambda: flask_client.get("/sparql", query_string={"query": q}, headers=headers),
+                    "flask-post": lambda: flask_client.post("/sparql", data={"query": q}, headers=headers),
+                }
+                if accept is not None:  # FastAPI declares the Accept header as required
+                    calls["fastapi-get"] = lambda: fast_client.get("/sparql", params={"query": q}, headers=headers)
+                for how, fn in calls.items():
+                    stats.ev()
+                    resp = fn()
+                    status = resp.status_code
+                    if status != 200:
+                        raise Violation(f"{phase} {how} {name} Accept={accept!r}: HTTP {status}")
+                    ct = (resp.headers.get("content-type") or "").split(";")[0].strip()
+                    if ct not in want_ct:
+                        raise Violation(f"{phase} {how} Accept={accept!r}: Content-Type {ct!r}, negotiation oracle allows {sorted(want_ct)!r}")
+                    body = resp.get_data(as_text=True) if hasattr(resp, "get_data") else resp.text
+                    got = _parse_bindings(ct, body, free)
+                    if got != want:
+                        raise Violation(f"{phase} {how} {name} Accept={accept!r} ({ct}): ?{free} = {sorted(got)!r}, expected {sorted(want)!r}")
     _classify(case, lm, stats, {"accept": accept})
 
 
@@ -298,7 +326,7 @@ SUBS = [
     Sub(name="negotiation", check=check_negotiation, strategy=lambda tier: accept_headers(tier), n={"quick": 4000, "thorough": 20000},
         required_classes=("nt:whitespace+q+2supported", "header:absent", "header:compact")),
     Sub(name="graph", check=check_graph, strategy=lambda tier: service_cases(tier), n={"quick": 200, "thorough": 600},
-        required_classes=("recognised", "unrecognised", "other-predicate", "nt:queried-uri-is-synonym-rendering", "nt:invalid-iri-synonym-filtered")),
+        required_classes=("recognised", "unrecognised", "other-predicate", "nt:queried-uri-is-synonym-rendering", "nt:invalid-iri-synonym-filtered", "converter-extended-after-graph-built")),
     Sub(name="http", check=check_http, strategy=lambda tier: service_cases(tier, http=True), n={"quick": 60, "thorough": 200},
         required_classes=("recognised",)),
 ]
